@@ -63,7 +63,8 @@ def job(args):
         if not os.path.isdir(INC):
             shutil.copytree(INC0, INC)
         os.makedirs(os.path.join(tmp, "src dir"), exist_ok=True)
-    path = os.path.join(tmp, "src dir" if spaced else "", "t%d.c" % idx)
+    fixed = args[7] if len(args) > 7 else None       # one scratch file rewritten between calls
+    path = os.path.join(tmp, "src dir" if spaced else "", fixed or ("t%d.c" % idx))
     names = typedef_names()
     with open(path, "w") as f:
         f.write(preamble)
@@ -146,6 +147,11 @@ def run(ctx):
             for h, as_list in (("stdio.h", True), ("stdlib.h", False), ("X11/Xlib.h", True)):
                 jobs.append(([h], "-std=c99", as_list, tmp, k, False, pre))
                 k += 1
+        # one file name, rewritten between calls with the same arguments: every call sees the current text
+        for hset in (["stdio.h"], ["zlib.h"], ["X11/Xlib.h"], ["stdlib.h", "zlib.h"], ["stdio.h"], ["X11/Intrinsic.h"]):
+            for as_list in (True, False):
+                jobs.append((hset, "-std=c99", as_list, tmp, k, False, "", "reused_%s.c" % ("l" if as_list else "s")))
+                k += 1
         res = pmap(job, jobs)
         md = run_model([req("cpp", ",".join(j[0])) for j in jobs]) if ctx.model_available else None
         keys = set()
@@ -160,7 +166,7 @@ def run(ctx):
                 if got != want:
                     ctx.violation("real cpp emitted bodies %r, Cpp.lean predicts %r for headers %r" % (got, want, j[0][:6]), {"kind": "headers", "headers": j[0], "dialect": j[1], "as_list": j[2]})
         ctx.count(len(jobs), nontrivial_keys={repr(k_) for k_ in keys})
-        ctx.rule("all %d header files alone x dialects %s x {list, str} cpp_args, random subsets/orders/repetitions of headers, header tree and source under paths containing blanks (list and str form), every order of first need of the three body groups, and sources on which cpp prints warnings while succeeding (macro redefinition, #warning, apostrophe in a skipped block); each generated .c file includes the headers and then declares a variable of every one of the %d typedef names; parse_file(use_cpp=True) must succeed, contain all typedefs and uses, equal preprocessing+parsing by hand, and emit the bodies Cpp.lean predicts" % (len(hs), dialects, len(typedef_names())))
+        ctx.rule("all %d header files alone x dialects %s x {list, str} cpp_args, random subsets/orders/repetitions of headers, header tree and source under paths containing blanks (list and str form), every order of first need of the three body groups, one scratch file rewritten between calls with unchanged arguments (each call must see the current text), and sources on which cpp prints warnings while succeeding (macro redefinition, #warning, apostrophe in a skipped block); each generated .c file includes the headers and then declares a variable of every one of the %d typedef names; parse_file(use_cpp=True) must succeed, contain all typedefs and uses, equal preprocessing+parsing by hand, and emit the bodies Cpp.lean predicts" % (len(hs), dialects, len(typedef_names())))
         ctx.sample({"kind": "headers", "headers": jobs[-1][0], "dialect": jobs[-1][1]})
     finally:
         shutil.rmtree(tmp, ignore_errors=True)
